@@ -173,7 +173,7 @@ func TestProp(t *testing.T) {
 		}
 	}
 	r.Rule("rapid: etype x plaintext length 0..64 x usage x random key; one tamper drawn from {bit flip at any position, truncation to any length, 1..17 appended bytes, swap of two adjacent 8/16-byte blocks, other usage from the usage set, unrelated key, same key bytes under another etype of equal key length}; non-trivial = a presentation that differs from the genuine one (rc4 usage aliases 3,9->8 and 23->13 are skipped and counted)")
-	r.Rapid("tamper", r.N(6000, 30000), func(t *rapid.T) {
+	r.Rapid("tamper", r.N(6000, 150000), func(t *rapid.T) {
 		et := kgen.EType(t)
 		c := Case{EType: et, Usage: kgen.Usage(t)}
 		c.Key = hex.EncodeToString(kgen.Key(t, et, "key"))
